@@ -43,6 +43,7 @@ class Gen:
         self.p_base_exc = p_base_exc
         self.obj_refs = obj_refs
         self.allow_catch = allow_catch
+        self.hot = []        # cells whose formulas ran in the most recent call (locality bias)
         self.nf = 0
         self.flib = {}
         self.sigs = {}
@@ -277,7 +278,7 @@ class Gen:
         cells = self.cached_cells()
         if not cells:
             return None
-        p, c = self.rng.choice(cells)
+        p, c = self.pick_cells(cells)
         return {"op": "set_value", "c": [list(p), [], c], "args": self.rand_args(c, False),
                 "v": self.rng.choice([500, 600, 700])}
 
@@ -285,17 +286,17 @@ class Gen:
         cells = self.cached_cells()
         if not cells:
             return None
-        p, c = self.rng.choice(cells)
+        p, c = self.pick_cells(cells)
         return {"op": "clear_at", "c": [list(p), [], c], "args": self.rand_args(c, False)}
 
     def mk_clear(self):
         cells = self.all_cells()
-        p, c = self.rng.choice(cells)
+        p, c = self.pick_cells(cells)
         return {"op": "clear", "c": [list(p), [], c]}
 
     def mk_clear_all(self):
         cells = self.all_cells()
-        p, c = self.rng.choice(cells)
+        p, c = self.pick_cells(cells)
         return {"op": "clear_all", "c": [list(p), [], c]}
 
     def mk_set_ref(self):
@@ -311,6 +312,9 @@ class Gen:
             return {"op": "set_ref", "s": [], "n": name,
                     "v": ["int", rng.choice(INT_VALUES) * 10, [], ""], "mode": "auto"}
         p = rng.choice(m["sp"])
+        hs = [q for q in self.hot_spaces() if q in m["sp"]]
+        if hs and rng.random() < 0.5:
+            p = rng.choice(hs)
         existing = list(m["refs"][tp(p)])
         if k < 0.40 and m["grefs"]:
             # shadow a model-level reference in a space
@@ -345,13 +349,13 @@ class Gen:
 
     def mk_set_formula(self):
         cells = self.all_cells()
-        p, c = self.rng.choice(cells)
+        p, c = self.pick_cells(cells)
         return {"op": "set_formula", "s": list(p), "c": c, "f": self.formula(p, c),
                 "via": self.rng.choice(["prop", "method"])}
 
     def mk_set_cached(self):
         cells = self.all_cells()
-        p, c = self.rng.choice(cells)
+        p, c = self.pick_cells(cells)
         cur = self.mir["cells"][tp(p)][c]["cached"]
         return {"op": "set_cached", "s": list(p), "c": c, "b": not cur}
 
@@ -386,8 +390,26 @@ class Gen:
         return {"op": "del_cells", "s": list(p), "c": c, "via": self.rng.choice(["attr", "item"])}
 
     # ------------------------------------------------------------------
+    def pick_cells(self, cells):
+        """Prefer cells that took part in the last evaluation: edits right next to an
+        evaluation are where invalidation bugs show."""
+        hot = [pc for pc in cells if [list(pc[0]), pc[1]] in self.hot]
+        if hot and self.rng.random() < 0.55:
+            return self.rng.choice(hot)
+        return self.rng.choice(cells)
+
+    def hot_spaces(self):
+        return [p for p, _ in self.hot]
+
     def update(self, op, res, ev=None):
         """Bookkeeping after an operation was accepted by the implementation."""
+        if ev is not None and op["op"] == "call":
+            seen = []
+            for f in ev.get("fx", []):
+                if f[0] == "enter" and not f[1][1] and [f[1][0], f[1][2]] not in seen:
+                    seen.append([f[1][0], f[1][2]])
+            if seen:
+                self.hot = seen
         if res != "ok":
             return
         m = self.mir
